@@ -102,49 +102,53 @@ theorem sortStage_perm (o : Val) (docs out : List Val) (h : sortStage o docs = .
 
 /-! ### `$skip`, `$limit` -/
 
+theorem skipStage_count (o : Val) (n : Int) (docs : List Val) (h : stageCount o = some n) :
+    skipStage o docs = (if 0 ≤ n then .ok (docs.drop n.toNat) else .error .opFail) := by
+  by_cases hn : 0 ≤ n
+  · simp [skipStage, h, hn, Int.not_lt.mpr hn]
+  · simp [skipStage, h, hn, Int.not_le.mp hn]
+
+theorem limitStage_count (o : Val) (n : Int) (docs : List Val) (h : stageCount o = some n) :
+    limitStage o docs = (if 0 < n then .ok (docs.take n.toNat) else .error .opFail) := by
+  by_cases hn : 0 < n
+  · simp [limitStage, h, hn, Int.not_le.mpr hn]
+  · simp [limitStage, h, hn, Int.not_lt.mp hn]
+
 theorem skipStage_int (n : Int) (docs : List Val) :
-    skipStage (.int n) docs = (if 0 ≤ n then .ok (docs.drop n.toNat) else .error .opFail) := by
-  by_cases h : 0 ≤ n
-  · simp [skipStage, h, Int.not_lt.mpr h]
-  · simp [skipStage, h, Int.not_le.mp h]
+    skipStage (.int n) docs = (if 0 ≤ n then .ok (docs.drop n.toNat) else .error .opFail) :=
+  skipStage_count (.int n) n docs rfl
 
 theorem limitStage_int (n : Int) (docs : List Val) :
-    limitStage (.int n) docs = (if 0 < n then .ok (docs.take n.toNat) else .error .opFail) := by
-  by_cases h : 0 < n
-  · simp [limitStage, h, Int.not_le.mpr h]
-  · simp [limitStage, h, Int.not_lt.mp h]
+    limitStage (.int n) docs = (if 0 < n then .ok (docs.take n.toNat) else .error .opFail) :=
+  limitStage_count (.int n) n docs rfl
 
-theorem skipStage_nonint (o : Val) (docs : List Val) (h : ∀ n, o ≠ .int n) :
+theorem skipStage_nocount (o : Val) (docs : List Val) (h : stageCount o = none) :
     skipStage o docs = .error .opFail := by
-  cases o with
-  | int n => exact absurd rfl (h n)
-  | _ => rfl
+  simp [skipStage, h]
 
-theorem limitStage_nonint (o : Val) (docs : List Val) (h : ∀ n, o ≠ .int n) :
+theorem limitStage_nocount (o : Val) (docs : List Val) (h : stageCount o = none) :
     limitStage o docs = .error .opFail := by
-  cases o with
-  | int n => exact absurd rfl (h n)
-  | _ => rfl
+  simp [limitStage, h]
 
 theorem skipStage_suffix (o : Val) (docs out : List Val) (h : skipStage o docs = .ok out) :
     out <:+ docs := by
-  cases o with
-  | int n =>
-    rw [skipStage_int] at h
+  cases hc : stageCount o with
+  | none => rw [skipStage_nocount o docs hc] at h; cases h
+  | some n =>
+    rw [skipStage_count o n docs hc] at h
     split at h
     · cases h; exact List.drop_suffix _ _
     · cases h
-  | _ => simp [skipStage] at h
 
 theorem limitStage_prefix (o : Val) (docs out : List Val) (h : limitStage o docs = .ok out) :
     out <+: docs := by
-  cases o with
-  | int n =>
-    rw [limitStage_int] at h
+  cases hc : stageCount o with
+  | none => rw [limitStage_nocount o docs hc] at h; cases h
+  | some n =>
+    rw [limitStage_count o n docs hc] at h
     split at h
     · cases h; exact List.take_prefix _ _
     · cases h
-  | _ => simp [limitStage] at h
 
 /-! ### `$count` -/
 
